@@ -7,6 +7,8 @@ export CARGO_NET_OFFLINE=true
 mkdir -p .build build evidence replay
 [ -f harness/Cargo.lock ] || cp /repo/Cargo.lock harness/Cargo.lock
 (cd harness && CARGO_TARGET_DIR="$PWD/../.build/rac" cargo build --offline --quiet)
+# the real `any` binary (C19 stand-in), built into the same target directory, never into /repo/target
+CARGO_TARGET_DIR="$PWD/.build/rac" cargo build --offline --quiet --bin any --manifest-path /repo/Cargo.toml
 python3 -c "
 import sys; sys.path.insert(0,'.')
 from vprove.run import run_unit
